@@ -262,3 +262,53 @@ Theorem C05_from_local_rule_zone_partial : forall z a first y l,
   find_local_time_type_from_local z y l = Val (Ok (table_answer ps prev l)).
 Proof. exact from_local_rule_zone. Qed.
 Print Assumptions C05_from_local_rule_zone_partial.
+
+(* FULL classification for a TZ string (zone given by a POSIX rule alone): for a wall reading l of
+   year k = utc_year l, off the excepted boundary seconds, under the property's premise for the
+   years k-3..k+2 (rule_year_hyps) and with the year's two transition windows disjoint and in order,
+   the answer lists exactly the oracle's instants_of_wall, earliest first *)
+Theorem C05_rule_zone_classification : forall z a first l,
+  let k := utc_year l in let r := conv_rule a in
+  transitions z = [] -> index (local_time_types z) 0 = Val first -> extra_rule z = Some (Alternate a) ->
+  alt_ok a -> -2147483650 <= k <= 2147483650 -> r_std r <> r_dst r -> rule_year_hyps r k ->
+  let '(ps, prev) := year_table a k in
+  ordered (windows (offs ps) (ut_offset prev)) = true ->
+  excepted_table (offs ps) (ut_offset prev) l = false ->
+  exists m, find_local_time_type_from_local z k l = Val (Ok m) /\
+  let S := instants_of_wall (mk_szone (ut_offset first) [] (Some (inr r))) l in
+  match m with
+  | MNone => S = []
+  | MSingle x => forall t, In t S <-> t = l - ut_offset x
+  | MAmbiguous x y => l - ut_offset x < l - ut_offset y /\
+                      forall t, In t S <-> t = l - ut_offset x \/ t = l - ut_offset y
+  end.
+Proof. exact rule_zone_classification. Qed.
+Print Assumptions C05_rule_zone_classification.
+(* the seconds excepted there are among the oracle's excepted seconds *)
+Theorem C05_excepted_wall_year_table : forall a first l,
+  let r := conv_rule a in
+  let '(ps, prev) := year_table a (utc_year l) in
+  excepted_wall (mk_szone first [] (Some (inr r))) l = false ->
+  excepted_table (offs ps) (ut_offset prev) l = false.
+Proof. exact excepted_wall_year_table. Qed.
+Print Assumptions C05_excepted_wall_year_table.
+(* the oracle's DST predicate in terms of the two transitions of the year of the wall reading *)
+Theorem C05_rule_is_dst_year : forall r k t, rule_year_hyps r k ->
+  (year_start k <= t + r_std r < year_start (k + 1) \/ year_start k <= t + r_dst r < year_start (k + 1)) ->
+  rule_is_dst r t =
+  (if rule_start_utc r k <? rule_end_utc r k
+   then (rule_start_utc r k <=? t) && (t <? rule_end_utc r k)
+   else (t <? rule_end_utc r k) || (rule_start_utc r k <=? t)).
+Proof. exact rule_is_dst_year. Qed.
+Print Assumptions C05_rule_is_dst_year.
+
+(** ** Known finding C05-closely-spaced-transitions: the spacing hypothesis of
+    C05_classification_table / C05_roundtrip_table cannot be dropped *)
+Theorem C05_unspaced_refuted :
+  table_zone un_zone un_ps un_a /\ extra_rule un_zone = None /\ increasing (offs un_ps) = true /\
+  spacing_table (offs un_ps) (ut_offset un_a) = false /\
+  excepted_wall (szone_of un_ps un_a) 1001800 = false /\
+  find_local_time_type_from_local un_zone 1970 1001800 = Val (Ok (MAmbiguous un_a un_b)) /\
+  instants_of_wall (szone_of un_ps un_a) 1001800 = [998200].
+Proof. exact unspaced_refuted. Qed.
+Print Assumptions C05_unspaced_refuted.
